@@ -19,6 +19,7 @@ mod fam_sorted;
 mod fam_abt;
 mod fam_vtime;
 mod fam_nfs;
+mod fam_stream;
 mod util;
 
 use std::io::Write;
@@ -40,6 +41,8 @@ fn families() -> Vec<Box<dyn Family>> {
     v.push(Box::new(fam_abt::AbtFamily));
     v.push(Box::new(fam_vtime::VTimeFamily));
     v.push(Box::new(fam_nfs::NfsFamily));
+    v.push(Box::new(fam_stream::ChunkerFamily));
+    v.push(Box::new(fam_stream::ReaderFamily));
     v
 }
 
